@@ -79,6 +79,9 @@ class P:
                 lit = digs if fd == 0 else (digs[:nd - fd] or "0") + "." + digs[nd - fd:]
                 lits.append(lit)
                 if fd in (0, nd // 2): lits.append("00" + lit)
+        # more fractional digits than a decimal can hold (the crate rounds them), with small and large mantissas
+        for k in (26, 27, 28, 29, 30, 35, 40, 60):
+            lits += ["0." + "0" * k + "1", "0." + "0" * k + "12", "1." + "0" * k, "3." + "0" * k + "5", "0." + "9" * k, "12." + "5" * k]
         cases += flow.mk_cases("lit", [("EXEC:1:" + hx(l), ("lit", l)) for l in lits])
         cases += flow.mk_cases("litsub", [("EXEC:1:" + hx("%d - %d" % (b, b - 1)), ("litsub", b)) for b in bounds if b < 2 ** 96])
         cases += flow.mk_cases("litcmp", [("EXEC:1:" + hx("%s == %s" % (a, b)), ("litcmp", a, b)) for a, b in
